@@ -2,11 +2,15 @@ PROP = "C20"
 LEVEL = "proof"
 ENGINE = "pyvc"
 HARNESS_MODULES = ["contracts.c20_config"]
-RULE = "native tier: contracts evaluated on the real functions for the listed spellings / importability / environment combinations"
+RULE = ("native tier: contracts evaluated on the real functions for the listed spellings / importability / environment combinations; "
+        "bounded/routes.py: every emitter with a native and an auxiliary route called on the real library for (argument None/True/False) x "
+        "(both configuration flags), the posted constraints inspected for the native operator (never for acyclic connectivity, grid shapes 1xN "
+        "/ Nx1 included); entry-point histories: every order of first use of sugar_extended, csugar, enigma_csp, cspuz_core (then sugar, then "
+        "the reverse), by argument and through config.default_backend, each order in a freshly imported library, against recording stubs")
 TRUSTED = ["pyvc's model of import (ImportError iff not importable), os.environ.get, str.lower (uninterpreted), string equality",
            "z3 string solver answers unsat correctly"]
 ASSUMPTIONS = ["module import has no side effect other than success/ImportError"]
-TECHNIQUE = "contract-based deductive verification (pyvc): VCs from the AST of the real configuration/dispatch code over SMT strings and symbolic importability/environment maps, discharged by z3"
+TECHNIQUE = "contract-based deductive verification (pyvc): VCs from the AST of the real configuration/dispatch code over SMT strings and symbolic importability/environment maps, discharged by z3 (configuration, dispatch, dispatch histories, route selection of the encoders, pass-through of the flag by the public wrappers in graph / grid / frame form); plus native inspection of the posted encoding and of the external entry point actually called (bounded, cross-check)"
 LEVEL_TEXT = "proof: decision logic over all strings, all importability combinations and all environments; every obligation discharged"
 LEVEL_NOTE = "trusted: the modelling of import, os.environ.get and str.lower; z3"
 
